@@ -109,7 +109,9 @@ def switched_with_tolerance(values, tol):
     last = pv[0]
     for k in range(1, len(pv)):
         s = (last > 0) - (last < 0)
-        if (pv[k] + tol * s) * last <= 0:
+        adj = pv[k] + tol * s
+        # signs are compared, never the product (it under/overflows for |values| beyond 1e+-154)
+        if ((adj > 0) - (adj < 0)) * s <= 0:
             best = max(cur, key=lambda j: (abs(pv[j]), -j))
             out.append(tp[best])
             cur = []
